@@ -463,6 +463,10 @@ pub enum OpKind {
   EqClone,
   /// use `objects[obj]` as a `HashMap` key, then look `objects[probe]` up
   Lookup { probe: usize },
+  /// if the object is a `ReplaceSource`: clone it, apply one more mutating
+  /// call to the *clone*, run `then` on the clone. The original is untouched
+  /// and must keep answering as before. (No-op on other source types.)
+  CloneEditObserve { call: ReplCall, then: Box<OpKind> },
 }
 
 #[derive(Clone, Debug, Serialize, Deserialize, PartialEq, Eq, Hash)]
@@ -489,6 +493,7 @@ impl OpKind {
       OpKind::CloneThen { then } => format!("clone>{}", then.label()),
       OpKind::EqClone => "eq_clone".into(),
       OpKind::Lookup { .. } => "lookup".into(),
+      OpKind::CloneEditObserve { then, .. } => format!("clone>edit>{}", then.label()),
     }
   }
   pub fn class(&self) -> &'static str {
@@ -505,6 +510,7 @@ impl OpKind {
       OpKind::CloneThen { .. } => "clone",
       OpKind::EqClone => "eq",
       OpKind::Lookup { .. } => "lookup",
+      OpKind::CloneEditObserve { .. } => "clone_edit",
     }
   }
 }
